@@ -26,7 +26,17 @@ type keySnap struct {
 	expect []string
 }
 
+// checkC14: a store operation that panics on a sequence a plain map takes in its stride is a
+// disagreement with the map like any other.
 func checkC14(t *testing.T, sc C14Sc) Verdict {
+	var v Verdict
+	if p, val := recoverCall(func() { v = checkC14Body(t, sc) }); p {
+		return bad("C14:panic", "a store operation panicked where a plain map would not: %v\nops: %v", val, sc.Ops)
+	}
+	return v
+}
+
+func checkC14Body(t *testing.T, sc C14Sc) Verdict {
 	pal := storePalette()
 	val := func(i int) any { return pal[((i%len(pal))+len(pal))%len(pal)] }
 	s := flyt.NewSharedStore()
